@@ -40,3 +40,9 @@ CLAIMS["C20"] = (
     "Peak RSS is a measurement, not a contract; decoders that ignore max_length are covered only through the assumed decoder contract; excluded parts are listed in the evidence.",
     "DESIGN.md 7 (C20)",
 )
+
+CLAIMS["C13"] = (
+    "Sequential part of the property as contracts: Worker.extract_single never raises when an exception queue is given and queues every exception exactly once, otherwise propagates it; Worker.extract hands every selected folder to exactly one worker with the file *name* (own handle), the right member list and offsets, the exception queue and the skip flag, and consults the queue before returning normally.",
+    "Schedules (interleavings of workers, concurrent SevenZipFile objects) have no semantics in any verifier available here and are excluded from the claim; Thread/Process/Queue behave as their documented contracts (assumed). Known finding F05: with mp=True worker errors are lost (Process copies the queue).",
+    "DESIGN.md 7 (C13)",
+)
